@@ -21,7 +21,7 @@ OWN_CLAUSES = {"Tiles", "Partition"}
 def run(ctx):
     quick = ctx.tier == "quick"
     cat = BR.catalogue(ctx.tier)
-    names = ["A", "B", "C2", "H6"] if quick else list(cat)
+    names = ["A", "B", "C2", "H6", "A3"] if quick else list(cat)
     rnd = random.Random(f"{ctx.seed}:C03")
     ctx.rule = ("behaviours of BrownianDump (all query histories to depth 3 where the history tree is small, "
                 "otherwise TLC simulation) replayed on the real object; a case = (configuration, history, shape, "
